@@ -194,7 +194,7 @@ type c15Setup struct {
 
 func c15Build(r *Run, state string) *c15Setup {
 	g := AdminGenesis()
-	g.TokenPairList = append(g.TokenPairList, cctptypes.TokenPair{RemoteDomain: 7, RemoteToken: distinct32(0xC7), LocalToken: "uusdc"}) // linked pair without a messenger
+	g.TokenPairList = append(g.TokenPairList, cctptypes.TokenPair{RemoteDomain: 7, RemoteToken: distinct32(0xC7), LocalToken: "uusdc"})  // linked pair without a messenger
 	g.PerMessageBurnLimitList = append(g.PerMessageBurnLimitList, cctptypes.PerMessageBurnLimit{Denom: "uATOM", Amount: math.NewInt(5)}) // an entry only genesis can create (handlers lower-case)
 	switch state {
 	case "no-attesters":
